@@ -315,6 +315,7 @@ def run_task(task):
                     if not bs.get('script_tag'):
                         tag += 1
                 # tags of blocks with an extra attribute end on the next line (start line != end line)
+                info['tag_range'] = ((line, 3), (line + (1 if bs.get('extra_attr') else 0), 20))
                 blk = mk_block(prog, I, attrs_d, (line, 3), (line + (1 if bs.get('extra_attr') else 0), 20), (start, start + len(content)), (line + 1, 30), (line + 3, 1))
                 bwcs.append(mk_bwc(prog, blk))
                 blocks.append(info)
@@ -423,6 +424,9 @@ def run_task(task):
                     continue
                 if got[0]['code'] != tuple(b'check-lua'):
                     viol(I, True, 'wrong-code', 'code %r' % (got[0]['code'],))
+                if (tuple(got[0]['start']), tuple(got[0]['end'])) != b['tag_range']:
+                    viol(I, True, 'range-not-the-start-tag', 'block %s: diagnostic range %s..%s, the start tag spans %s..%s' % (
+                        b['name'], got[0]['start'], got[0]['end'], b['tag_range'][0], b['tag_range'][1]))
                 msg = lua_error(prog, I, got[0]['data'])
                 if msg is None:
                     viol(I, True, 'diagnostic-lacks-message', 'no lua_error in the diagnostic data')
@@ -594,7 +598,8 @@ def check_real(binary, w):
         got = {k: len(v) for k, v in (diags or {}).items()}
         got_msgs = sorted((d.get('data') or {}).get('lua_error', '') for v in (diags or {}).values() for d in v)
         ok = got == exp['diags'] and r['code'] == (1 if exp['diags'] else 0) and got_calls == sorted(exp_calls) \
-            and got_msgs == [m.encode('latin1').decode('utf-8', 'replace') for m in exp['messages']]
+            and got_msgs == [m.encode('latin1').decode('utf-8', 'replace') for m in exp['messages']] \
+            and diag_ranges_on_tags(files, diags)
     return dict(ok=ok, observed=dict(code=r['code'], diags=diags, stderr=r['stderr'][-300:], calls=got_calls), expected=dict(exp, calls=sorted(exp_calls)), files=files)
 
 
